@@ -39,6 +39,8 @@ type StoreOpts struct {
 	MaintenanceDelay int    `json:"maintenance_ms,omitempty"`
 	Workers          int    `json:"workers,omitempty"`
 	CacheCleanupMs   int    `json:"cache_cleanup_ms,omitempty"`
+	// NoMaintLoop: maintenance runs only when the harness calls FM.VerifMaintenance
+	NoMaintLoop bool `json:"no_maint_loop,omitempty"`
 }
 
 type Store struct {
@@ -96,7 +98,11 @@ func OpenStore(dir string, o StoreOpts) (*Store, error) {
 	if err := fm.Load(context.Background()); err != nil {
 		return nil, fmt.Errorf("load: %w", err)
 	}
-	fm.Start()
+	if o.NoMaintLoop {
+		fm.VerifStartWithoutMaintenance()
+	} else {
+		fm.Start()
+	}
 	w := o.Workers
 	if w == 0 {
 		w = 4
